@@ -452,7 +452,7 @@ func writeLockSlices(w *bufio.Writer, s *vt.Sched, tag string) int {
 		}
 		fmt.Fprintf(w, "LOCK %s o%d\n", tag, m)
 		for _, l := range lines[m] {
-			w.WriteString("k " + l + "\n")
+			w.WriteString("lk " + l + "\n")
 		}
 		fmt.Fprintf(w, "ENDLOCK\n")
 		k++
